@@ -83,13 +83,13 @@ def specOp (ws : List String) : Option Res :=
 
 def machine : Machine where
   σ := Unit
-  init := ()
+  init := fun _ => ()
   op := fun _ line =>
     match evalOp (words line) with
     | some r => ((), r.toString)
     | none => ((), "bad-op")
   μ := Option Res   -- last `wad cpow` answer of the implementation, for pow ⇔ checked_pow
-  minit := none
+  minit := fun _ => none
   mon := fun st opl obs =>
     let ws := words opl
     let st' : Option Res :=
